@@ -23,8 +23,9 @@
 (*  * constraint_evals is not a prover message but a function of           *)
 (*    everything drawn so far, the public inputs and degree_bits.          *)
 (*                                                                         *)
-(* cfg = [nc, npi, capn, layers, strat, narity, q, nfinal, ncols, naux,    *)
-(*        nquot, lookups, nsimz, padcaps, padfinal]                        *)
+(* cfg = [nc, npi, npifree, capn, layers, strat, narity, q, nfinal, ncols, *)
+(*        naux, nquot, lookups, nsimz, padcaps, padfinal]                  *)
+(* npifree = number of (trailing) public inputs that occur in no constraint*)
 (***************************************************************************)
 EXTENDS TranscriptCore, Json, IOUtils, Functions, SequencesExt
 
@@ -36,11 +37,11 @@ D == 2
 Lattice ==
   {[nc |-> nc, npi |-> np, capn |-> cp, layers |-> ly, strat |-> st, narity |-> ly, q |-> 2, nfinal |-> 2,
     ncols |-> 2, naux |-> IF lk THEN 2 ELSE 0, nquot |-> 2 * nc, lookups |-> lk, nsimz |-> 1,
-    padcaps |-> pd, padfinal |-> 2 * pd] :
+    padcaps |-> pd, padfinal |-> 2 * pd, npifree |-> IF np = 0 THEN 0 ELSE 1] :
      nc \in {1, 2}, np \in {0, 3}, cp \in {1, 2}, ly \in 0..2, st \in {"fixed", "cab", "minsize"},
      lk \in BOOLEAN, pd \in {0, 1}}
 OneConfig == [nc |-> 2, npi |-> 3, capn |-> 2, layers |-> 2, strat |-> "fixed", narity |-> 2, q |-> 2, nfinal |-> 2,
-              ncols |-> 2, naux |-> 2, nquot |-> 4, lookups |-> TRUE, nsimz |-> 1, padcaps |-> 1, padfinal |-> 2]
+              ncols |-> 2, naux |-> 2, nquot |-> 4, lookups |-> TRUE, nsimz |-> 1, padcaps |-> 1, padfinal |-> 2, npifree |-> 1]
 \* sub-lattice of the quick tier
 LatticeQuick == {c \in Lattice : c.layers # 1 /\ c.strat # "minsize" /\ c.capn = 2}
 Configs == IF ConfigSet = "env" THEN {c : c \in Range(ndJsonDeserialize(IOEnv.CFGS))}
@@ -75,7 +76,10 @@ FullSchedule(cfg) ==
      Sq("zeta_prime", D),
      \* bound-constraint evaluations: computed by the verifier from all challenges so far, the
      \* public inputs and degree_bits
-     ObsDerived("constraint_evals", cfg.nc * D, FALSE, {<<"degree_bits", 1>>} \cup AtomsOf("public_input", cfg.npi), TRUE),
+     \* (only the public inputs that occur in a constraint: the last npifree ones occur in none - for those
+     \* the observe step at the top of the program is the ONLY thing that binds them)
+     ObsDerived("constraint_evals", cfg.nc * D, FALSE,
+                {<<"degree_bits", 1>>} \cup AtomsOf("public_input", cfg.npi - cfg.npifree), TRUE),
      Sq("stark_alphas", cfg.nc),
      Obs("quotient_polys_cap", CapLen(cfg)),
      Sq("stark_zeta", D),
@@ -142,6 +146,9 @@ Entry(c, d) ==
         pre |-> [ch \in AllChallenges(P0) |-> cum[RoundOf(P0, ch)]]] : cum \in {CumAtoms(fs, c, P0, 1, {})}}
       : fs \in {FullSchedule(c)}, P0 \in {Protocol(c)}} : TRUE
 
+\* challenges the library's StarkProofChallenges exposes (alphas', the simulating zetas, zeta' and the padding
+\* dummies are internal): FS1X is FS1 restricted to them - what a replay through the API can observe
+Exposed(ch) == ch \notin {"stark_alphas_prime", "simulating_zetas", "zeta_prime", "fri_pad_betas"}
 VARIABLES cfg, dis, T, pc, el, tc, log, seen, ok
 vars == <<cfg, dis, T, pc, el, tc, log, seen, ok>>
 \* T = Entry(cfg, dis); log: one record per squeezed element [ch, dc] (dc = classes it depends on);
@@ -157,7 +164,7 @@ Done == pc > 0 /\ pc > Len(prog)
 \* the configuration is chosen by the first step and set up by the second, so that TLC's workers
 \* share the work (initial states are processed by one worker only)
 Init == /\ cfg = NoCfg /\ dis = {} /\ T = NoCfg /\ pc = 0 /\ el = 1 /\ tc = UInit /\ log = <<>> /\ seen = {}
-        /\ ok = [fs1 |-> TRUE, fs2 |-> TRUE, fs0 |-> TRUE]
+        /\ ok = [fs1 |-> TRUE, fs2 |-> TRUE, fs0 |-> TRUE, fs1x |-> TRUE]
 Choose == /\ pc = 0 /\ cfg = NoCfg
           /\ \E c \in Configs : \E d \in Mutants : cfg' = c /\ dis' = d
           /\ UNCHANGED <<T, pc, el, tc, log, seen, ok>>
@@ -173,7 +180,8 @@ Run ==
         /\ ok' = IF s.k = "S"
                  THEN [fs1 |-> ok.fs1 /\ pre[s.class] \subseteq r[2],
                        fs2 |-> ok.fs2 /\ pre[s.class] \subseteq seen,
-                       fs0 |-> ok.fs0 /\ r[2] \subseteq pre[s.class]]
+                       fs0 |-> ok.fs0 /\ r[2] \subseteq pre[s.class],
+                       fs1x |-> ok.fs1x /\ (Exposed(s.class) => pre[s.class] \subseteq r[2])]
                  ELSE ok
         /\ seen' = IF s.k = "O" THEN seen \cup ElemTaint(s, el, tc) ELSE seen
         /\ IF el < s.n THEN el' = el + 1 /\ pc' = pc ELSE el' = 1 /\ pc' = pc + 1
@@ -186,6 +194,9 @@ FS2 == ok.fs2
 FS0 == ok.fs0
 \* canary form: every spec mutant (a dropped absorption) is caught by FS1 at the end of its run
 MutantCaught == (Done /\ dis # {}) => ~ok.fs1
+\* ... and already through the exposed challenges alone (needs a public input outside every constraint and a
+\* lookup argument in the configuration, as in OneConfig)
+MutantCaughtExposed == (Done /\ dis # {}) => ~ok.fs1x
 \* every challenge of the protocol is drawn, with the right number of elements, in protocol order
 ChallengeCount(ch) == Cardinality({j \in 1..Len(log) : log[j].ch = ch})
 ExpectedCount(ch) == FoldSeq(LAMBDA s, acc : acc + (IF s.k = "S" /\ s.class = ch THEN s.n ELSE 0), 0, T.fs)
